@@ -7,7 +7,7 @@ from .values import LazyInit, Unsupported, VInt, VBool, VNone, NONE, VSeq, VTupl
 from .symexec import PathEnd, ReturnSig, BreakSig, ContinueSig, PyExc
 
 MUTATORS = {"append", "pop", "insert", "remove", "extend", "update", "clear", "sort", "reverse", "setdefault",
-            "popitem", "add", "discard", "write", "seek", "read"}
+            "popitem", "add", "discard", "write", "seek", "read", "popleft", "appendleft"}
 
 
 def loop_contract(I, node, fr):
